@@ -245,4 +245,40 @@ theorem balanced {code : Code} {A : List FnAnn} (hv : verify code A = true) {lim
   subst this
   exact ⟨by rw [← cx1.hh, ← cx2.hh], by rw [cx1.mp, cx2.mp]⟩
 
+/-! ## Building paths by evaluation (for concrete examples) -/
+
+theorem Path.head {code : Code} {A : List FnAnn} {lim : Limits} {d : Nat} {s s1 s2 : VMState}
+    (hmp : s.mp < (lim.memory : Int)) (hdyn : DynOK code A lim (tick s)) (hit : iter code lim s = .cont s1)
+    (hd : d ≤ s1.calls.length) (hp : Path code A lim d s1 s2) : Path code A lim d s s2 := by
+  induction hp with
+  | refl => exact .step (.refl s) hmp hdyn hit hd
+  | step _ hmp' hdyn' hit' hd' ih => exact .step ih hmp' hdyn' hit' hd'
+
+/-- `n` loop iterations that stay at call depth `≥ d` and within the memory limit. -/
+def pathRun (code : Code) (lim : Limits) (d : Nat) : Nat → VMState → Option VMState
+  | 0, s => some s
+  | n + 1, s =>
+    if s.mp < (lim.memory : Int) then
+      match iter code lim s with
+      | .cont s' => if d ≤ s'.calls.length then pathRun code lim d n s' else none
+      | _ => none
+    else none
+
+theorem path_of_pathRun {code : Code} {A : List FnAnn} {lim : Limits} {d : Nat}
+    (hdyn : ∀ s, DynOK code A lim s) : ∀ (n : Nat) (s s' : VMState),
+    pathRun code lim d n s = some s' → Path code A lim d s s'
+  | 0, s, s', h => by simp only [pathRun, Option.some.injEq] at h; subst h; exact .refl s
+  | n + 1, s, s', h => by
+    simp only [pathRun] at h
+    split at h
+    · rename_i hmp
+      split at h
+      · rename_i s1 hit
+        split at h
+        · rename_i hd
+          exact Path.head hmp (hdyn _) hit hd (path_of_pathRun hdyn n s1 s' h)
+        · cases h
+      · cases h
+    · cases h
+
 end HmsProofs.Lemmas.VMSound
